@@ -478,7 +478,17 @@ func (p c17) runShellVars(w *mon.Worker, r *rand.Rand, dir string, traced bool) 
 	res.Sig = fmt.Sprintf("shell|%x", hashStr(text))
 	docf := filepath.Join(dir, "in.yaml")
 	_ = os.WriteFile(docf, []byte(text), 0o644)
-	br := mon.Run(mon.RunOpts{Dir: dir}, w.YqBin(), "-o=shell", shExpr, docf)
+	// flags that shape other output formats change nothing here: the text is shell assignments, quoted as needed
+	argv := []string{w.YqBin(), "-o=shell"}
+	if fl := []string{"", "", "-r", "--unwrapScalar", "-r=false", "-N", "-I4", "-M", "-rN"}[r.IntN(9)]; fl != "" {
+		if r.IntN(2) == 0 {
+			argv = []string{w.YqBin(), fl, "-o=shell"}
+		} else {
+			argv = append(argv, fl)
+		}
+		res.Tags = append(res.Tags, "flag:"+fl)
+	}
+	br := mon.Run(mon.RunOpts{Dir: dir}, append(argv, shExpr, docf)...)
 	res.Evals++
 	if br.TimedOut {
 		res.Verdict, res.Detail = mon.Inconclusive, "binary timed out"
